@@ -24,7 +24,7 @@ func init() {
 		Assumptions: []string{"memcall.Interface methods perform the named syscalls", "memguard/core's init calls DisableCoreDumps (as its documentation and the source comment in protectedmemory state)", "sync.Cond.Wait keeps the lock held on return"},
 		Tech:        "static analysis: lock-state dataflow, must-pass-through and ordering (dominance) rules on SSA, applied to both SecretFactory back ends",
 		NeedU1:      true,
-		Rules:       []func(*Ctx){ruleC11GuardedFields, ruleC11Bracket, ruleC11ProtectionTransitions, ruleC11CloseWaitsAndOrders, ruleC11CoreDumps, ruleSecretFlagsMonotonic, lockBalancedRule("C11", 10, lockDomSpec{pkgProt, "secretInternal", "rw"}, lockDomSpec{pkgMemg, "secret", "rw"}), nilContradictionRule("C12", false, "github.com/godaddy/asherah/go/securememory")},
+		Rules:       []func(*Ctx){ruleC11GuardedFields, ruleC11Bracket, ruleC11ProtectionTransitions, ruleC11CloseWaitsAndOrders, ruleC11CoreDumps, ruleSecretFlagsMonotonic, lostUpdateRule("C11", "github.com/godaddy/asherah/go/securememory"), lockBalancedRule("C11", 10, lockDomSpec{pkgProt, "secretInternal", "rw"}, lockDomSpec{pkgMemg, "secret", "rw"}), nilContradictionRule("C12", false, "github.com/godaddy/asherah/go/securememory")},
 	})
 }
 
@@ -326,25 +326,7 @@ func ruleC11ProtectionTransitions(c *Ctx) {
 			if !isNilValue(returnedValue(r, 1)) {
 				continue
 			}
-			var alloc, lock ssa.Instruction
-			allInstrs(ns, func(i ssa.Instruction) {
-				if !instrDominates(i, r) {
-					return
-				}
-				if e := errOfCall(i); e != nil && knownNil(e, r.Block()) {
-					switch mcOp(i) {
-					case "Alloc":
-						alloc = i
-					case "Lock":
-						lock = i
-					}
-				}
-			})
-			ok := alloc != nil && lock != nil && instrDominates(alloc, lock)
-			// the locked buffer is the allocated one
-			if ok {
-				ok = strip(callOf(lock).Args[0]) == strip(resultsOfType(alloc, isByteSlice)[0][0])
-			}
+			ok := allocThenLock(ns, r, 0)
 			c.check(ok, "protectedmemory.newSecret/alloc-then-lock", u.ipos(r), "success return dominated by successful Alloc then Lock of the same buffer", "a secret is created without its pages being allocated and mlock'd (in that order, both succeeding)")
 		}
 	}
@@ -567,4 +549,51 @@ func ruleC11CoreDumps(c *Ctx) {
 		}
 	}
 	c.check(ok, "protectedmemory/core-dumps", "", "imports memguard/core (init disables core dumps)", "protectedmemory neither imports memguard/core nor disables core dumps itself: secrets can end up in core files")
+}
+
+// allocThenLock: return r of f (a nil-error return) is dominated by a successful Alloc followed by a successful Lock of
+// the allocated buffer — in f itself, or inside a helper whose error is known nil at r and whose own nil-error returns
+// all satisfy this.
+func allocThenLock(f *ssa.Function, r *ssa.Return, depth int) bool {
+	var alloc, lock ssa.Instruction
+	viaHelper := false
+	allInstrs(f, func(i ssa.Instruction) {
+		if !instrDominates(i, r) {
+			return
+		}
+		e := errOfCall(i)
+		if e == nil || !knownNil(e, r.Block()) {
+			return
+		}
+		switch mcOp(i) {
+		case "Alloc":
+			alloc = i
+		case "Lock":
+			lock = i
+		default:
+			if h := staticCallee(i); h != nil && h.Blocks != nil && h.Pkg != nil && h.Pkg.Pkg.Path() == pkgProt && h != f && depth < 2 {
+				all, n := true, 0
+				for _, hr := range returnsOf(h) {
+					if len(hr.Results) < 2 || !isNilValue(returnedValue(hr, len(hr.Results)-1)) {
+						continue
+					}
+					n++
+					if !allocThenLock(h, hr, depth+1) {
+						all = false
+					}
+				}
+				if all && n > 0 {
+					viaHelper = true
+				}
+			}
+		}
+	})
+	if viaHelper {
+		return true
+	}
+	ok := alloc != nil && lock != nil && instrDominates(alloc, lock)
+	if ok {
+		ok = strip(callOf(lock).Args[0]) == strip(resultsOfType(alloc, isByteSlice)[0][0])
+	}
+	return ok
 }
